@@ -186,6 +186,8 @@ def run(ctx, col, tier):
         "swcgeom.core.swc", "swcgeom.core.tree", "swcgeom.core.branch_tree"), "tree-to-tree operations")
     from ..rules import stateless
     col.guard(stateless.check, ctx, col, "R-STATE", ("swcgeom.transforms.tree", "swcgeom.transforms.geometry", "swcgeom.transforms.branch", "swcgeom.transforms.branch_tree", "swcgeom.transforms.base", "swcgeom.transforms.path", "swcgeom.transforms.population"))
+    from ..rules import ignoredparam
+    ignoredparam.run(ctx, col, ('swcgeom.transforms.tree', 'swcgeom.transforms.geometry', 'swcgeom.transforms.branch', 'swcgeom.transforms.branch_tree', 'swcgeom.transforms.base', 'swcgeom.transforms.path', 'swcgeom.transforms.population', 'swcgeom.core.tree_utils', 'swcgeom.core.tree_utils_impl', 'swcgeom.core.swc_utils.subtree', 'swcgeom.core.swc_utils.normalizer'))
     col.guard(mustpass, ctx, col)
     col.guard(writeset, ctx, col)
     col.guard(compose, ctx, col)
